@@ -42,6 +42,8 @@ def gen_temporal(rng, n, tier):
         base = rng.choice([1000, 1000, 1000, 4107542390, 4107542400 + 86400 * 40, 951782390])       # ordinary instants, or around the end of February 2100 / 2000 and later in 2100
         ts = sorted(rng.sample(range(base, base + 4 * k + 10), k))
         ms = [rng.choice([0, 0, 250, 500, 750]) for _ in ts]
+        if rng.random() < 0.1:                      # a track whose first fix carries the default timestamp (01/01/1970 00:00:00.000), as left by incrementTime()
+            d = ts[0]; ts = [t - d for t in ts]; ms[0] = 0; base = 0
         coords = [[float(rng.choice(VALS)) for _ in range(k)] for _ in range(3)]
         if rng.random() < 0.3:      # repeated positions
             i = rng.randrange(1, k)
